@@ -323,6 +323,9 @@ type guardSpec struct {
 	// Extra lets a property add accesses that are not field accesses (e.g. "invoking a user callback that may
 	// mutate guarded records needs the exclusive lock").
 	Extra func(in ssa.Instruction) []guardedAccess
+	// PointerElems: guarded maps whose pointer elements denote guarded objects too: "T.field" of the map -> true.
+	// A field access through such a pointer needs the lock like an access to the map itself.
+	PointerElems map[string]bool
 }
 
 type guardedAccess struct {
@@ -381,6 +384,41 @@ func (gs *guardSpec) derives(v ssa.Value, depth int) (string, bool) {
 	return "", false
 }
 
+// pointerElem: v is a pointer obtained by looking up a guarded map listed in PointerElems.
+func (gs *guardSpec) pointerElem(v ssa.Value) (string, bool) {
+	if len(gs.PointerElems) == 0 {
+		return "", false
+	}
+	v = stripChange(v)
+	var m ssa.Value
+	switch x := v.(type) {
+	case *ssa.Lookup:
+		m = x.X
+	case *ssa.Extract:
+		if lk, ok := x.Tuple.(*ssa.Lookup); ok && x.Index == 0 {
+			m = lk.X
+		}
+		if nx, ok := x.Tuple.(*ssa.Next); ok && x.Index == 2 {
+			if rg, ok := nx.Iter.(*ssa.Range); ok {
+				m = rg.X
+			}
+		}
+	case *ssa.Phi:
+		for _, e := range x.Edges {
+			if f, ok := gs.pointerElem(e); ok {
+				return f, true
+			}
+		}
+	}
+	if m == nil {
+		return "", false
+	}
+	if f, ok := gs.derives(m, 0); ok && gs.PointerElems[f] {
+		return f, true
+	}
+	return "", false
+}
+
 func elemIsMapOrSlice(t types.Type) bool {
 	if tt, ok := t.(*types.Tuple); ok && tt.Len() > 0 {
 		t = tt.At(0).Type()
@@ -433,6 +471,11 @@ func (gs *guardSpec) classify(in ssa.Instruction) []guardedAccess {
 		if f, ok := gs.guardedAddr(x.Addr); ok && !freshBase(x.Addr) {
 			add(f, 2, "store")
 		}
+		if fa, ok := x.Addr.(*ssa.FieldAddr); ok {
+			if f, ok := gs.pointerElem(fa.X); ok {
+				add(f, 2, "store through a pointer element")
+			}
+		}
 		if ia, ok := x.Addr.(*ssa.IndexAddr); ok {
 			if f, ok := gs.derives(ia.X, 0); ok {
 				add(f, 2, "element store")
@@ -443,6 +486,11 @@ func (gs *guardSpec) classify(in ssa.Instruction) []guardedAccess {
 		if x.Op == token.MUL {
 			if f, ok := gs.guardedAddr(x.X); ok && !freshBase(x.X) {
 				add(f, 1, "load")
+			}
+			if fa, ok := x.X.(*ssa.FieldAddr); ok {
+				if f, ok := gs.pointerElem(fa.X); ok {
+					add(f, 1, "load through a pointer element")
+				}
 			}
 		}
 	case *ssa.MapUpdate:
@@ -509,6 +557,16 @@ func runGuardedBy(p *Prog, gs *guardSpec) ([]guardedAccess, *lockAnalysis, []str
 	var imbalance []string
 	seenImb := map[string]bool{}
 	la.visit = func(fn *ssa.Function, entry lstate, in ssa.Instruction, st lstate) {
+		if c, ok := in.(*ssa.Call); ok {
+			if id, mode, ok := lockOp(&c.Call); ok && mode > 0 && st.get(id) > 0 {
+				for _, l := range gs.Guarded {
+					if l == id {
+						accs = append(accs, guardedAccess{Fn: fn, In: in, Field: "re-acquisition of " + id, Need: 3, Held: st.get(id), Lock: id, Kind: "lock acquired while already held", Entry: entry})
+						break
+					}
+				}
+			}
+		}
 		for _, ga := range gs.classify(in) {
 			ga.Fn = fn
 			ga.Held = st.get(ga.Lock)
